@@ -2186,6 +2186,8 @@ void resize_target_update_count(struct cds_lfht *ht,
 
 void cds_lfht_resize(struct cds_lfht *ht, unsigned long new_size)
 {
+	bool was_online;
+
 	resize_target_update_count(ht, new_size);
 
 	/*
@@ -2193,7 +2195,16 @@ void cds_lfht_resize(struct cds_lfht *ht, unsigned long new_size)
 	 */
 	uatomic_store(&ht->resize_initiated, 1);
 
+	/*
+	 * The resize mutex is held across grace periods: wait for it as
+	 * an offline thread, so its owner does not wait for us (QSBR).
+	 */
+	was_online = ht->flavor->read_ongoing();
+	if (was_online)
+		ht->flavor->thread_offline();
 	mutex_lock(&ht->resize_mutex);
+	if (was_online)
+		ht->flavor->thread_online();
 	_do_cds_lfht_resize(ht);
 	mutex_unlock(&ht->resize_mutex);
 }
@@ -2206,7 +2217,10 @@ void do_resize_cb(struct urcu_work *work)
 	struct cds_lfht *ht = resize_work->ht;
 
 	ht->flavor->register_thread();
+	/* See cds_lfht_resize(): wait for the resize mutex offline. */
+	ht->flavor->thread_offline();
 	mutex_lock(&ht->resize_mutex);
+	ht->flavor->thread_online();
 	_do_cds_lfht_resize(ht);
 	mutex_unlock(&ht->resize_mutex);
 	ht->flavor->unregister_thread();
